@@ -439,6 +439,11 @@ func isInt32(jsonValue *astjson.Value) bool {
 	return err == nil && n >= math.MinInt32 && n <= math.MaxInt32
 }
 
+// isInteger reports whether a JSON number has neither a fraction nor an exponent
+func isInteger(jsonValue *astjson.Value) bool {
+	return !bytes.ContainsAny(jsonValue.MarshalTo(nil), ".eE")
+}
+
 func (v *variablesVisitor) traverseNamedTypeNode(jsonValue *astjson.Value, typeName []byte) {
 	if v.err != nil {
 		return
@@ -508,7 +513,7 @@ func (v *variablesVisitor) traverseNamedTypeNode(jsonValue *astjson.Value, typeN
 				return
 			}
 		case "ID":
-			if jsonValue.Type() != astjson.TypeString && jsonValue.Type() != astjson.TypeNumber {
+			if jsonValue.Type() != astjson.TypeString && (jsonValue.Type() != astjson.TypeNumber || !isInteger(jsonValue)) {
 				v.renderVariableInvalidNestedTypeError(jsonValue, fieldTypeDefinitionNode.Kind, typeName, false)
 				return
 			}
